@@ -87,8 +87,11 @@ CHECKS = {
                      "iff prepared&positive&failed and to the unexpected-list iff prepared&negative&succeeded, the lists being the ones printed under "
                      "`Expected`/`Unexpected`; prepare: Less ignore / Equal keep / Greater clear+move; polarity saved/set/restored around the closure "
                      "with no other writer; record_during_with: push, closure, pop, record only for leaf frames; POS/NEG nodes run their operand under "
-                     "polarity true/false; every non-silent rule expansion records itself at its start, silent ones do not; panic-capable sites "
-                     "reachable from collect are discharged and the position is re-validated.",
+                     "polarity true/false (and positive_during / negative_during pass that constant); the frame stack carries (rule, offset, false), "
+                     "marks its parent, reports `closure result.is_some()`, a new tracker starts positive and empty, get_entry takes the nearest "
+                     "frame at a different offset; the Expected / Unexpected table and the special-error messages print the right lists / payload "
+                     "in the right order (templates decoded from the format_args! lowering); every non-silent rule expansion records itself at "
+                     "its start, silent ones do not; panic-capable sites reachable from collect are discharged and the position is re-validated.",
                 note="'Not before the consumed prefix' and truthfulness on inputs are not decided.",
                 ref="§4 C10"),
     "C11": dict(level="other", tech="data-flow / who-may-call in the generator's typed HIR; rustc type-checking fixture grammars; SCC analysis of the parse-path call graph",
@@ -120,8 +123,10 @@ CHECKS = {
                 text="Partial: every panic-capable site and raw usize subtraction reachable from Display/display of Span and Position is discharged by a "
                      "reviewed reason keyed by expression and guards (this rule found the empty-input panic, now fixed); control characters map to "
                      "their pictures (33 table entries read from the match); every successful path of display_span/display_position must pass a "
-                     "display_snippet call (reports the known finding: a Position at end of input is displayed as nothing). Line numbers, line "
-                     "selection and marker columns are runtime arithmetic: not decided.",
+                     "display_snippet call (reports the known finding: a Position at end of input is displayed as nothing); the line searches use the "
+                     "right comparison and advance once per round; Partition constructors cut the line where their field names say; every printed "
+                     "number is partition.line + 1 (+2, +3, end+0 for the rows between); paddings measure `former`, marker runs `middle`, all with one "
+                     "width function. The arithmetic itself on inputs is not decided.",
                 note="Discharge table is part of the specification; one open known finding (R14-SHOW:display_position) in known_findings.json.",
                 ref="§4 C14; §5.2, §5.5"),
     "C15": dict(level="other", tech="path enumeration over the typed HIR of the two work-list traversals with a work-list event alphabet and emptiness facts; resolved-term comparison of token construction and delegation; decoded format_args! template of the renderer; C02's forwarding instances",
